@@ -134,6 +134,7 @@ def c12(run):
                         "schedules are replayed with blocking verif hooks inside a testing/synctest bubble"]
     replay_conc(run, cases, ["C12_"])
     explore(run, "c12", 8000 if quick else 200000, ["C12_"])
+    heightsub_unit(run, 2000 if quick else 60000, ["C12_"])
     if design_cex and not run.violations and not run.known_hits:
         raise vlib.Inconclusive("design-level counterexamples %s not reproduced on the code" % design_cex)
 
@@ -258,6 +259,82 @@ def explore(run, mode, runs, prefixes, procs=8):
     run.cov["failed_clauses"] = fc
 
 
+def heightsub_unit(run, runs, prefixes, procs=4):
+    """store/heightsub.go as a unit.  (1) HeightSub.tla model-checked by TLC (2 concurrent SetHeight callers, Notify,
+    1..2 waiters with cancellation): HeightMonotone, OkIsStored, NoLostWakeup, CancelReleases ...; the variant without the
+    compare-and-swap loop must be refuted (self-test).  (2) seeded walks over the real heightSub's own schedule space
+    (TestHeightSub), every step validated against the same transition function (HeightSubTrace.tla): a step the model
+    cannot explain is model drift, the C12 / C17 clauses are evaluated on the recorded observations."""
+    pid = run.pid
+    quick = run.tier == "quick"
+    waiters = '{"W1"}' if quick else '{"W1", "W2"}'
+    res = vlib.tlc(pid, "hs_mc", "HeightSub", "HeightSub.cfg", workers=8, constants={"Waiters": waiters}, timeout=3000)
+    vlib.require_tlc_ok(res, "HeightSub.tla")
+    run.add_tlc("HeightSub.tla (CAS loop): HeightMonotone OkIsStored ElapsedIsRight NoLostWakeup CancelReleases HeightIsStored", res)
+    bad = vlib.tlc(pid, "hs_nocas", "HeightSub", "HeightSubNoCAS.cfg", workers=4, constants={"Waiters": '{"W1"}'}, timeout=1200)
+    if bad.error or "HeightMonotone" not in (bad.violated or ""):
+        raise vlib.Inconclusive("self-test: HeightSub.tla without the compare-and-swap loop was not refuted (%s)" % (bad.error or bad.violated))
+    run.cov["heightsub_selftest"] = "variant without the CAS loop refuted: HeightMonotone violated after %d states" % bad.generated
+    wd = vlib.workdir(pid)
+    binp = os.path.join(wd, "conch_hs.test")
+    vlib.go_build_test("conch", binp)
+    per = max(1, runs // procs)
+
+    def one(i):
+        tp = os.path.join(wd, "hs_%d.ndjson" % i)
+        if os.path.exists(tp):
+            os.remove(tp)
+        r = vlib.run_bin(binp, ["-test.run", "^TestHeightSub$", "-test.timeout", "1500s", "-test.count", "1"],
+                         env_extra={"VH_TRACE": tp, "VH_RUNS": per, "VH_IDBASE": 2000000 + i * per, "VERIF_SEED": vlib.seed(),
+                                    "GOLOG_LOG_LEVEL": "error"}, timeout=1600)
+        if r.returncode != 0:
+            tail = r.stdout[-2500:] + r.stderr[-2500:]
+            if "panic:" in tail and ("go-header" in tail or "/repo/" in tail) and "synctest" not in tail.split("panic:")[1][:200]:
+                return None, tail
+            if "deadlock" in tail and "synctest" in tail:
+                # every goroutine of the bubble is blocked for good although all contexts were cancelled
+                return None, "bubble deadlocked: " + tail
+            raise vlib.Inconclusive("heightSub driver failed:\n" + tail)
+        tv = vlib.tlc(pid, "tvh_%d" % i, "HeightSubTrace", "HeightSubTrace.cfg", workers=1, env_extra={"TRACE": tp}, heap="2g", timeout=1500)
+        if tv.error or not tv.ok:
+            raise vlib.Inconclusive("heightSub trace validation failed: %s" % ((tv.error or tv.stdout)[-2000:]))
+        return tv, None
+
+    with concurrent.futures.ThreadPoolExecutor(max_workers=procs) as ex:
+        outs = list(ex.map(one, range(procs)))
+    cnt = collections.Counter()
+    drift = 0
+    for tv, crash in outs:
+        if crash:
+            run.violation({"family": "conc", "symptom": "process_crash", "mode": "heightsub"}, "heightSub walk crashed inside go-header: " + crash[-1500:])
+            continue
+        run.cov["states"] += tv.distinct
+        run.cov["transitions"] += tv.generated
+        run.cov["traces_validated_against_impl"] += per
+        run.cov["evaluations"] += max(0, tv.distinct - 1)
+        for f in tv.exported:
+            if f.get("k") == "DRIFT":
+                drift += 1
+                if drift <= 3:
+                    vlib.log("MODEL-DRIFT property=%s heightSub walk %s step %s (%s %s %s): no successor of HeightSub.tla matches what the code shows [%s]"
+                             % (pid, f["tr"], f["i"], f["p"], f["a"], f["x"], f["cfg"]))
+                continue
+            if f.get("k") != "FAIL":
+                continue
+            for p in f["preds"]:
+                if not p.startswith(tuple(prefixes)):
+                    continue
+                cnt[p] += 1
+                run.violation({"family": "conc", "pred": p, "mode": "heightsub"},
+                              "clause %s fails at step %s of heightSub walk %s (seed %s) [%s]" % (p, f["i"], f["tr"], vlib.seed(), f["cfg"]))
+    run.cov["heightsub_walks"] = per * procs
+    run.cov["heightsub_model_drift"] = drift
+    fc = dict(run.cov.get("failed_clauses", {}))
+    for k2, v2 in cnt.items():
+        fc[k2] = fc.get(k2, 0) + v2
+    run.cov["failed_clauses"] = fc
+
+
 @register("C17")
 def c17(run):
     quick = run.tier == "quick"
@@ -284,4 +361,5 @@ def c17(run):
     replay_conc(run, cases, ["C17_"])
     explore(run, "c17", 24000 if quick else 400000, ["C17_"])
     stress(run, 48 if quick else 1600)
+    heightsub_unit(run, 2000 if quick else 60000, ["C17_"])
     run.sample({"stress": "2..4 writers append interleaved chunks of a 40..160 header chain, 2 observers sample Head/Height and re-read the head, optional deleter prunes the tail"})
